@@ -82,6 +82,9 @@ def plan(prop, tier, seed):
         shards += [{"kind": "instr5", "n": 1500 if q else 25000, "shard": i, "hz": hz} for i in range(4 if q else 16)]
     if prop == "C07":
         shards += [{"kind": "straight", "n": 150 if q else 2500, "shard": i, "hz": True} for i in range(2)]
+        # programs with a data segment loaded through the assembler into a simulation with caches and penalties:
+        # the cycle counter starts at 0 and ends at steps + penalty x counted misses
+        shards += [{"kind": "asmdata", "n": 60 if q else 1200, "shard": i, "hz": True} for i in range(2 if q else 8)]
     if prop in ("C07", "C02"):
         # the equivalence of the two modes (C02) and the schedule (C07) do not depend on the cache configuration
         shards += [{"kind": "cached", "n": 150 if q else 1500, "shard": i, "hz": True} for i in range(4 if q else 16)]
@@ -149,6 +152,20 @@ def run_shard(spec, res):
             res.evaluations += 1
             res.sample(case, 2)
         return
+    if kind == "asmdata":
+        from . import cache as _cache
+
+        for it in range(spec["n"]):
+            case = _cache.gen_asmprog_case(rng)
+            case["kind"] = "asmdata"
+            case["icache"] = rand_cache(rng) if rng.random() < 0.5 else None
+            if case["dcache"]["pen"] == 0:
+                case["dcache"]["pen"] = rng.choice([1, 3, 7])
+            guarded(run_asmdata_case, prop, case, res)
+            res.evaluations += 1
+            if it < 1:
+                res.sample(case, 2)
+        return
     if kind == "enum":
         k = 0
         for n in range(1, spec["nmax"] + 1):
@@ -196,6 +213,50 @@ def run_shard(spec, res):
         res.evaluations += 1
         if it < 1:
             res.sample(case, 4)
+
+
+def run_asmdata_case(prop, case, res):
+    """C07, total cycle count of a program as the user loads it (assembler text with a data segment, caches with miss
+    penalties): the counter is 0 before the first step, every step adds 1 + penalty x the counted misses of that
+    step, and the total is steps + penalty x counted misses (data and instruction cache counters)."""
+    from ..gen import asm_rv as A
+
+    text = A.Renderer(case["render"]).program({"data": case["data"], "stmts": case["stmts"], "labels": {}}, data_first=case["data_first"])
+    dc, ic = case["dcache"], case.get("icache")
+    sim = make_riscv("five", hz=True, dcache=dc, icache=ic)
+    try:
+        sim.load_program(text)
+    except Exception:
+        return  # (a well-formed text that does not load is C04's finding)
+    pm = sim.state.performance_metrics
+
+    def misses():
+        t = 0
+        for st, pen in ((sim.state.memory.get_cache_stats(), dc["pen"]), (sim.state.instruction_memory.get_cache_stats(), ic["pen"] if ic else 0)):
+            if st:
+                t += pen * (int(st["accesses"]) - int(st["hits"]))
+        return t
+
+    res.count("asm_loaded_cycle_totals")
+    if pm.cycles != 0:
+        res.violation("C07", "cycle-total", "the cycle counter is %d before the first step (program with a data segment loaded through the assembler, data cache %r)" % (pm.cycles, dc), case)
+        return
+    k = 0
+    try:
+        while not sim.is_done() and k < 700:
+            before = pm.cycles, misses()
+            sim.step()
+            k += 1
+            if pm.cycles - before[0] != 1 + misses() - before[1]:
+                res.violation("C07", "cycle-increment", "step %d advanced the cycle counter by %d, expected 1 + %d (miss penalties of this step)" % (k, pm.cycles - before[0], misses() - before[1]), case)
+                return
+    except Exception:
+        return
+    if pm.cycles != k + misses():
+        res.violation("C07", "cycle-total", "after %d steps the cycle counter is %d, expected steps + miss penalties = %d" % (k, pm.cycles, k + misses()), case)
+        return
+    if misses():
+        res.nontrivial(h64(case))
 
 
 def pad_source(rng):
